@@ -526,6 +526,9 @@ func (fe *FE) bindPhis(st *State, b, pred *ssa.BasicBlock) {
 		}
 		v.GoT = phi.Type()
 		st.vals[phi] = v
+		if isIdentName(phi.Comment) {
+			st.names[phi.Comment] = v
+		}
 	}
 }
 
@@ -538,6 +541,9 @@ func (fe *FE) havocLoop(st *State, li *loopInfo) {
 			break
 		}
 		st.vals[phi] = fe.freshVal(st, "phi_"+phi.Comment, phi.Type())
+		if isIdentName(phi.Comment) {
+			st.names[phi.Comment] = st.vals[phi]
+		}
 	}
 	if li.modAll {
 		for name := range st.heap {
